@@ -26,7 +26,7 @@ RULE = ("scenario = generated config file (1..4 servers; args with spaces/quotes
         "absent/int/float/numeric string; extra keys) or a malformed-config class, x entry point {load_config, test_server, run_command} x child "
         "faults (answer latency, chunked answers, junk lines before the answer, one server unstartable); non-trivial = an entry point that "
         "spawns was exercised with a non-default argument/env shape or a fault")
-PROBES = ["unknown_name_after_valid_one", "run_command_multi_server", "one_server_unstartable", "env_configured", "args_with_spaces_or_unicode", "malformed_config",
+PROBES = ["repeat_load", "unknown_name_after_valid_one", "run_command_multi_server", "one_server_unstartable", "env_configured", "args_with_spaces_or_unicode", "malformed_config",
           "junk_before_answer", "timeout_numeric_string"]
 TIERS = {"quick": {"runs": 8000, "wall": 45.0}, "thorough": {"runs": 300000, "wall": 560.0}}
 ASSUMPTIONS = [
@@ -210,7 +210,15 @@ def execute(scn: dict) -> dict:
             with patched((anyio, "open_process", factory)):
                 try:
                     if entry == "load_config":
-                        st["outcome"] = ("return", await cfgmod.load_config(path, names[0]))
+                        first = await cfgmod.load_config(path, names[0])
+                        # loading is idempotent: the same unchanged file gives the same answer every time (and for other names in between)
+                        st["repeat"] = []
+                        for other in [s_["name"] for s_ in scn["servers"]][:3] + [names[0], names[0]]:
+                            try:
+                                st["repeat"].append((other, await cfgmod.load_config(path, other)))
+                            except Exception as e_:  # noqa
+                                st["repeat"].append((other, e_))
+                        st["outcome"] = ("return", first)
                     else:
                         st["outcome"] = ("return", await mainmod.test_server(path, names[0], verbose=False))
                 except BaseException as e:  # noqa
@@ -314,6 +322,15 @@ def execute(scn: dict) -> dict:
                     V("loader", "wrong-parameters", f"load_config returned {val!r:.200} for server spec {s!r:.200}")
                 if isinstance(s.get("timeout"), str):
                     probe("timeout_numeric_string")
+                for (nm, rv) in st.get("repeat", []):
+                    s2 = by_name[nm]
+                    good = isinstance(rv, tuple) and len(rv) == 2 and rv[0].command == s2["command"] and list(rv[0].args) == s2.get("args", []) \
+                        and rv[0].env == s2.get("env") and rv[1] == (float(s2["timeout"]) if "timeout" in s2 else None)
+                    if not good:
+                        V("loader", "repeat-load-differs", f"loading {nm!r} again from the unchanged file gave {rv!r:.200} for server spec {s2!r:.200}")
+                        break
+                if st.get("repeat"):
+                    probe("repeat_load")
         if spawns:
             V("loader", "spawned", "load_config must not spawn anything")
     else:
